@@ -102,6 +102,8 @@ def generate(seed, prop):
     rng = rng_for(seed)
     kind = _kind_for(prop, rng)
     grid = CV.draw_grid(rng)
+    if prop in ("C20", "C08", "C05", "C12") and rng.random() < (0.12 if prop == "C20" else 0.05):
+        grid = {"kind": "lin0", "hi": rng.choice([10.0, 25.0, 50.0]), "n": rng.choice([9, 17, 33])}
     f = CV.gen_grid(grid)
     n_az = 1
     if kind in ("azimuthal", "multi"):
@@ -182,7 +184,7 @@ def generate(seed, prop):
 
     # swarm: op weights
     w = {"update_peaks": 4.0, "fdwra": 2.0, "set_masks": 2.0, "sta_lta": 0.6,
-         "max_value": 0.6, "manual": 0.0, "write_read": 0.0, "plot": 0.0, "query": 1.0}
+         "max_value": 0.6, "manual": 0.0, "write_read": 0.0, "plot": 0.0, "query": 1.0, "clone": 0.5}
     if rng.random() < 0.15:
         w["manual"] = 0.5
     if prop == "C08" and n_az > 1:
@@ -201,7 +203,8 @@ def generate(seed, prop):
         w["plot"] = 3.0
         w["manual"] = 0.0
     if prop == "C13":
-        w.update({"sta_lta": 4.0, "max_value": 3.0, "update_peaks": 2.0, "fdwra": 1.5, "set_masks": 2.0, "query": 0.5})
+        w.update({"sta_lta": 4.0, "max_value": 3.0, "update_peaks": 2.0, "fdwra": 1.5, "set_masks": 2.0, "query": 0.5,
+                  "edit_window": 1.5})
     for k in list(w):                         # randomly mute / boost some ops
         u = rng.random()
         if u < 0.15 and k not in ("write_read", "plot"):
@@ -286,6 +289,20 @@ def generate(seed, prop):
         world["prehistory"] = {"grid": g2, "k": rng.randrange(1 << 30), "n": rng.randint(1, 4),
                                "ranges": [list(r) for r in rng.sample(rs, min(len(rs), 3))] if rs else [],
                                "rounds": rng.randint(1, 3)}
+    if prop == "C12" and kind != "diffuse" and rng.random() < 0.2:
+        # biased schedule: two different selections with the SAME number of accepted windows, a write after each
+        a_ = rng.randrange(len(curves))
+        n_ = len(curves[a_])
+        if n_ >= 4:
+            k_ = rng.randint(1, n_ // 2)
+            pick = rng.sample(range(n_), 2 * k_)
+            i1, i2 = sorted(pick[:k_]), sorted(pick[k_:])
+            pos = rng.randint(0, len(ops))
+            ops[pos:pos] = [{"op": "set_masks", "az": a_, "idx": i1, "value": False},
+                            draw_op(rng, "write_read", f, kind, curves, azimuths, 0.0),
+                            {"op": "set_masks", "az": a_, "idx": i1, "value": True},
+                            {"op": "set_masks", "az": a_, "idx": i2, "value": False},
+                            draw_op(rng, "write_read", f, kind, curves, azimuths, 0.0)]
     if prop == "C12" and not any(o["op"] == "write_read" for o in ops):
         ops.append(draw_op(rng, "write_read", f, kind, curves, azimuths, fault_rate))
     if prop == "C13" and not any(o["op"] in ("sta_lta", "max_value") for o in ops):
@@ -335,6 +352,14 @@ def draw_op(rng, name, f, kind, curves, azimuths, fault_rate=0.0):
                           "y0": rng.choice([0.0, 1.2, 2.0, 3.0]), "y1": rng.choice([2.5, 4.0, 50.0])})
         return {"op": name, "boxes": boxes, "range": draw_range(rng, f),
                 "kwargs": rng.choice([None, {}]), "dfn": rng.choice(DISTS), "dmc": rng.choice(DISTS)}
+    if name == "clone":
+        # the caller goes on with a copy of the result (copy.deepcopy, or a pickle round trip as multiprocessing makes)
+        return {"op": name, "how": rng.choice(["deepcopy", "pickle"])}
+    if name == "edit_window":
+        # the caller edits the samples of a time window in place between two rejections (a taper, a burst written into a
+        # slice, a rescaled part): the same array objects, other contents
+        return {"op": name, "j": rng.randrange(64), "how": rng.choice(["taper", "burst", "quiet", "scale_all"]),
+                "comp": rng.choice(["ns", "ew", "vt", "all"]), "pos": rng.random()}
     if name == "update_source":
         return {"op": name, "az": rng.randrange(len(curves)), "range": draw_range(rng, f), "kwargs": draw_kwargs(rng),
                 "also": rng.choice(["update", "mask", "second_container"])}
@@ -752,6 +777,33 @@ def apply_op(ctx, st, op, prop):
                         continue
                 h.valid_window_boolean_mask[j] = op["value"]
                 h.valid_peak_boolean_mask[j] = op["value"]
+        st.range_changed = False
+        ctx.state_changes += 1
+    elif name == "clone":
+        import pickle
+
+        def dup(o):
+            return copy.deepcopy(o) if op["how"] == "deepcopy" else pickle.loads(pickle.dumps(o))
+        for key in list(st.objs):
+            st.objs[key] = [dup(c) for c in st.objs[key]] if key == "curves" else dup(st.objs[key])
+        ctx.probe("history_continues_on_a_copy")
+        st.range_changed = False
+    elif name == "edit_window":
+        recs = get_records(st)
+        r_ = recs[op["j"] % len(recs)]
+        for c_ in (("ns", "ew", "vt") if op["comp"] == "all" else (op["comp"],)):
+            ts = getattr(r_, c_)
+            n_ = ts.n_samples
+            i0 = int(op["pos"] * max(1, n_ - n_ // 4))
+            if op["how"] == "taper":
+                ts.window("tukey", 1.0)
+            elif op["how"] == "burst":
+                ts.amplitude[i0:i0 + max(4, n_ // 20)] *= 25.0
+            elif op["how"] == "quiet":
+                ts.amplitude[i0:i0 + n_ // 4] *= 1e-3
+            else:
+                ts.amplitude *= 3.0
+        ctx.probe("window_samples_edited_in_place")
         st.range_changed = False
         ctx.state_changes += 1
     elif name in ("sta_lta", "max_value") and prop == "C13":
